@@ -38,11 +38,14 @@ Definition cos_hel (M mi mj mk sij sik : R) : R :=
 
 (* one resonance chain A -> R(ij) k, R -> i j.
    coupling c (complex), spin J, nominal mass m0R, width g0R, barrier radius d. *)
-Definition res_amp_core (c : C) (J : nat) (q q0 p p0 m0R g0R d : R) (mR cth : R) : C :=
-  let f := (-1) ^ J * (q ^ J * Bprime J q q0 d) * (p ^ J * Bprime J p p0 d) * legendre J cth in
+(* production barrier on q^2 (get_barrier_factor2): (q^2)^(J/2) * sqrt(P_J(q0^2 d^2)/P_J(q^2 d^2)); q0^2 is the SIGNED
+   break-up momentum squared at the nominal mass, negative when the nominal mass lies outside the Dalitz plot
+   (the polynomial ratio continues analytically); equal to q^J B'_J(q,q0,d) for q0^2 > 0 (C15_bprime_q2_agrees) *)
+Definition res_amp_core (c : C) (J : nat) (q2 q02 p p0 m0R g0R d : R) (mR cth : R) : C :=
+  let f := (-1) ^ J * (sqrt q2 ^ J * Bprime_q2 J q2 q02 d) * (p ^ J * Bprime J p p0 d) * legendre J cth in
   Cmul c (Cscal f (BWR mR m0R g0R p p0 J d)).
 Definition res_amp (c : C) (J : nat) (M mi mj mk m0R g0R d : R) (mR cth : R) : C :=
-  res_amp_core c J (get_relative_p M mR mk) (get_relative_p M m0R mk)
+  res_amp_core c J (get_relative_p2 M mR mk) (get_relative_p2 M m0R mk)
                (get_relative_p mR mi mj) (get_relative_p m0R mi mj) m0R g0R d mR cth.
 
 (* complex coupling from the library's polar parameters *)
